@@ -87,6 +87,10 @@ class DatetimeArg(Arg):
                 out.append(datetime.time(h, mi, s, us, tzinfo=tz))
             else:
                 out.append(datetime.datetime(y, m, d, h, mi, s, us, tzinfo=tz))
+        if self.as_time and not self.aware:
+            # a time of day carrying a zone whose offset depends on the date has no offset: it is naive
+            out.append(datetime.time(1, 2, 3, 250000, tzinfo=DstTz()))
+            out.append(datetime.time(23, 59, 59, tzinfo=DstTz()))
         if self.aware and not self.as_time:
             # a time zone whose offset depends on the date (daylight saving): values just before / inside the
             # transitions, where the offset of the value and that of a neighbouring instant differ; both folds
@@ -101,6 +105,8 @@ class DstTz(datetime.tzinfo):
     the repeated hour 01:00-02:00 on 7 November is told apart by fold"""
 
     def _dst(self, dt):
+        if dt is None:
+            return None            # a bare time of day: the rules cannot say (datetime's definition of a naive time)
         start = datetime.datetime(2021, 3, 14, 2)
         end = datetime.datetime(2021, 11, 7, 1)         # from 01:00 on, fold decides
         n = dt.replace(tzinfo=None)
@@ -111,13 +117,13 @@ class DstTz(datetime.tzinfo):
         return False
 
     def utcoffset(self, dt):
-        return datetime.timedelta(hours=-4 if self._dst(dt) else -5)
+        return None if dt is None else datetime.timedelta(hours=-4 if self._dst(dt) else -5)
 
     def dst(self, dt):
-        return datetime.timedelta(hours=1 if self._dst(dt) else 0)
+        return None if dt is None else datetime.timedelta(hours=1 if self._dst(dt) else 0)
 
     def tzname(self, dt):
-        return "EDT" if self._dst(dt) else "EST"
+        return None if dt is None else ("EDT" if self._dst(dt) else "EST")
 
     def __repr__(self):
         return "DstTz()"
@@ -359,6 +365,18 @@ def reject_contracts(with_date):
         out.append(Contract(f"ofxtools.Types:{cls.__name__}.convert",
                             args=[dtinst(cls), StrArg("value", length=n, charset=DIG)], call=meth("convert"),
                             raises=[(OFXSpecError, "True", "must")], notes=f"wrong length {n}", props=["C09", "C10"]))
+    # a complete text followed by one more character - any code point, line breaks included
+    ANYCH = [(0, 0xD7FF), (0xE000, 0x10FFFF)]
+    for tp in (0, 1, 2) if with_date else (1, 2):
+        base = shape(with_date, tp, None)
+        n0 = base.maxlen
+        pp = dict(base.per_pos); pp[n0] = ANYCH
+        out.append(Contract(f"ofxtools.Types:{cls.__name__}.convert",
+                            args=[dtinst(cls), StrArg("value", length=n0 + 1, per_pos=pp, charset=DIG)], call=meth("convert"),
+                            requires=[f"value[{n0}] != '['"] if tp else [f"not (48 <= ord(value[{n0}]) <= 57)"],
+                            raises=[(OFXSpecError, "True", "must"), (ValueError, "True", "must")],
+                            notes=f"a complete text (time part {tp}) followed by one more character of any kind", props=["C09", "C10"],
+                            gen=(lambda base_: lambda rng: [cls(), rng.choice(base_.samples(rng, 4)) + rng.choice(["\n", " ", "\r", "x", "\t", "Z", "+", "\u2028"])])(base)))
     # one field out of range (full form with milliseconds)
     e = fields_expr(with_date, 2, None)
     bad = [("hour", f"{e['h']} > 23"), ("minute", f"{e['mi']} > 59"), ("second", f"{e['s']} > 60")]
